@@ -1,16 +1,24 @@
 --------------------------- MODULE MarchSquares ---------------------------
 (* World-enumeration machine over MS2 (see MarchCubes.tla). *)
 EXTENDS MS2
-CONSTANTS DX, DY, Base, LoDigits, Emit
+CONSTANTS DX, DY, Base, LoDigits, Emit,
+          Sample, Seed    \* Sample = 0: exhaustive; else that many pseudo-random worlds (LCG from Seed)
 VARIABLES phase, hi, code
 vars == <<phase, hi, code>>
 W(c) == World(DX, DY, Base, c)
 LoN == Pow(Base, LoDigits)
 HiN == Pow(Base, DX * DY - LoDigits)
 Init == phase = 0 /\ hi = 0 /\ code = 0
-PickHi == /\ phase = 0 /\ phase' = 1 /\ hi' \in 0..(HiN - 1) /\ code' = 0
+\* a small linear congruential generator (all products stay below 2^31)
+R(x) == (75 * (x % 65537) + 74) % 65537
+PickHi == /\ phase = 0 /\ phase' = 1 /\ code' = 0
+          /\ hi' \in 0..((IF Sample = 0 THEN HiN ELSE Sample) - 1)
 PickLo == /\ phase = 1 /\ phase' = 2 /\ hi' = hi
-          /\ \E lo \in 0..(LoN - 1) : code' = hi * LoN + lo
+          /\ IF Sample = 0
+             THEN \E lo \in 0..(LoN - 1) : code' = hi * LoN + lo
+             ELSE LET r1 == R(R(Seed * 31 + hi))
+                      r2 == R(r1 + 7)
+                  IN code' = (r1 % HiN) * LoN + (r2 % LoN)
 Next == PickHi \/ PickLo
 Spec == Init /\ [][Next]_vars
 StaticOK == phase = 0 => (TablesShape /\ EdgeMaskOK /\ UsesOnlyMasked)
